@@ -11,7 +11,7 @@
 import os as _os
 _HOT_DEFAULT = [
     # mesh stage
-    "*/merge32", "*/merge64", "mesh:numProp/numProp-0", "mesh:runIndex", "mesh:tangent-length", "mesh:triVerts-length",
+    "*/merge32", "*/merge64", "mesh:triVerts-index/tv-idx-rand-valid", "mesh:numProp/numProp-0", "mesh:runIndex", "mesh:tangent-length", "mesh:triVerts-length",
     "mesh:tolerance/tol-nan", "mesh:tolerance/tol-inf", "mesh:position/pos-huge", "mesh:merge/merge-rand-valid",
     "mesh:merge/merge-all-to-one", "mesh:merge/merge-cycle",
     # poly stage
@@ -42,19 +42,19 @@ CHECK = {
         {"name": "mesh", "variant": "asan", "harness": "c09_malformed.cpp",
          "cases": {"quick": 400, "thorough": 1400},
          "params": {"mode": "mesh", "mutants": 40, "hot": ",".join(HOT), "hotPerCase": {"quick": 0.12, "thorough": 0.05}},
-         "case_timeout": 60},
+         "case_timeout": 180},
         {"name": "poly", "variant": "asan", "harness": "c09_malformed.cpp",
          "cases": {"quick": 160, "thorough": 500},
          "params": {"mode": "poly", "mutants": 40, "hot": ",".join(HOT), "hotPerCase": {"quick": 0.12, "thorough": 0.05}},
-         "case_timeout": 60},
+         "case_timeout": 180},
         {"name": "args", "variant": "asan", "harness": "c09_malformed.cpp",
          "cases": {"quick": 200, "thorough": 600},
          "params": {"mode": "args", "mutants": 40, "hot": ",".join(HOT), "hotPerCase": {"quick": 0.12, "thorough": 0.05}},
-         "case_timeout": 60},
+         "case_timeout": 180},
     ],
     "assumptions": [
         "g++ -O1 -fsanitize=address,undefined -fno-sanitize-recover=all build of /repo's working tree, -DNDEBUG, MANIFOLD_PAR=-1",
-        "termination is decided by the driver's watchdog (60 s without journal progress, retried alone with 600 s)",
+        "termination is decided by the driver's watchdog (180 s without journal progress, retried alone with 1800 s)",
         "arguments that are valid but merely too large (segments > 64..4096, Refine n > 12, edge lengths implying > 3e4 cells, numProp or property index > 2000) are counted as resource_bound_not_executed and excluded",
     ],
 }
@@ -73,7 +73,7 @@ TEXT = {
              "point sets and OBJ text; one or two special values (neg, 0, -0, denormal, NaN, +-Inf, DBL_MAX, INT_MIN/MAX) in "
              "every numeric argument of 44 operations. Sampling, not proof."),
     "note": ("Trusts g++'s sanitizers and the harness oracles. Uninitialised reads are only seen when they lead to a crash "
-             "(no MSan). Termination = 60 s watchdog. Valid-but-huge requests are counted as resource_bound and not run. "
+             "(no MSan). Termination = 180 s watchdog. Valid-but-huge requests are counted as resource_bound and not run. "
              "While the findings are open their mutation kinds are throttled (param hot) and witnessed as KNOWN-FINDING; "
              "C bindings are C20's. No libFuzzer stage (would need driver support for a second main)."),
     "technique": "runtime monitoring: structure-aware mutation fuzzing under ASan+UBSan with status-stickiness and usable-result oracles",
